@@ -16,9 +16,9 @@ combinators, and of pipelines as an inductive syntax tree `Pipe` with a `build` 
 Payload operations (`recompress`, `decompress`, `merge_tiles`, `Runner::run`) are the opaque
 functions of `Ops`; they are total here, i.e. the stored tiles are assumed to be decodable.
 (In Rust a failure is `Err` in the lookup; in the stream it is a panic for from_overlayed
-(`recompress(..).unwrap()`) and from_vectortiles_merged (`decompress`/`merge_tiles` unwrapped),
-and since /repo 9545dd82 a skipped tile for vectortiles_update_properties – which is what
-`expected` prescribes for a failing lookup, so `map_stream_ok` also covers that case in spirit.)
+(`recompress(..).unwrap()`) and, since /repo 9545dd82 / a8bacbd4, a skipped tile for
+vectortiles_update_properties and from_vectortiles_merged – which is what `expected` prescribes
+for a failing lookup.)
 -/
 namespace VtModel
 open BBox
